@@ -593,6 +593,28 @@ def model(ctx):
 CBS = "iora::network::detail::EngineBase::Callbacks::"
 SREQ = UDP + "::SendReq"
 IDX, SESSIONS = UDP + "::_peerIndex", UDP + "::_sessions"
+LWQ, SWQ, OTO, OTOLEN, OPAY = LST + "::wq", SESS + "::wq", ODG + "::to", ODG + "::toLen", ODG + "::payload"
+
+
+def resolve_state(fb):
+    """The private state the rules talk about is identified by its TYPE inside its record, not by its spelling: the peer index is the
+    engine's map from a string key to a session id, the out-queues are the deque<OutDg> of a listener and the deque<ByteBuffer> of a
+    session, a queued datagram is (sockaddr_storage, socklen_t, ByteBuffer).  A renamed member is the same member; two candidates (or
+    none) and the rules refuse."""
+    global IDX, LWQ, SWQ, OTO, OTOLEN, OPAY
+
+    def one(rec, pred, what):
+        c = [fld["n"] for fld in fb.record(rec)["fields"] if pred((fld.get("t") or "").replace(" ", ""))]
+        if len(c) != 1:
+            raise AnalysisBroken("%s: %d members of %s have the type of %s — cannot tell which one it is" % (short(rec), len(c), short(rec), what))
+        return c[0] if "::" in c[0] else rec + "::" + c[0]
+    bb = "std::vector<unsignedchar>"
+    IDX = one(UDP, lambda t: t.startswith("std::unordered_map<std::basic_string<char>,unsignedlong") or t.startswith("std::map<std::basic_string<char>,unsignedlong"), "the peer index")
+    LWQ = one(LST, lambda t: t.startswith("std::deque<") and t.endswith("::OutDg>"), "the listener out-queue")
+    SWQ = one(SESS, lambda t: t == "std::deque<%s>" % bb, "the session out-queue")
+    OTO = one(ODG, lambda t: t == "sockaddr_storage", "the queued destination")
+    OTOLEN = one(ODG, lambda t: t in ("unsignedint", "socklen_t"), "the queued destination length")
+    OPAY = one(ODG, lambda t: t == bb, "the queued payload")
 INSERTS = ("emplace", "insert", "try_emplace")
 
 
@@ -951,7 +973,8 @@ def r2(ctx, r):
             if e.node.get("k") == "decl":
                 for v in e.node["vars"]:
                     i = strip_wrappers(v.get("init")) if v.get("init") else None
-                    if i is not None and i.get("k") in ("mcall", "opcall") and field_of(i.get("obj") or (i.get("args") or [None])[0]) in (SESS + "::wq", LST + "::wq") and "&" in v["t"] and "const" not in v["t"]:
+                    if i is not None and i.get("k") in ("mcall", "opcall") and field_of(i.get("obj") or (i.get("args") or [None])[0]) in (SWQ, LWQ) and "&" in v["t"] and "const" not in v["t"] and \
+                            last(i.get("callee", "")) in ("back", "front", "at", "operator[]"):
                         refs.add(v["d"])
         for e in f.stmts():
             n = e.node
@@ -964,7 +987,7 @@ def r2(ctx, r):
             if recv is None:
                 continue
             via_elem = any(x.get("k") in ("mcall", "opcall") and last(x.get("callee", "")) in ("back", "front", "at", "operator[]") and
-                           field_of(x.get("obj") or (x.get("args") or [None])[0]) in (SESS + "::wq", LST + "::wq") for x in walk(recv))
+                           field_of(x.get("obj") or (x.get("args") or [None])[0]) in (SWQ, LWQ) for x in walk(recv))
             via_ref = any(x.get("k") == "var" and x.get("d") in refs for x in walk(recv))
             if via_elem or via_ref:
                 r.instance()
@@ -973,28 +996,28 @@ def r2(ctx, r):
     # would-block: the whole payload is queued — on the connected socket's queue the command's payload itself, on the listener's queue a
     # datagram object whose payload field is assigned the command's payload and nothing else
     qs = [e for e in sd.stmts() if (e.node.get("k") == "mcall" and last(e.node.get("callee", "")) in ("emplace_back", "push_back") and
-                                    field_of(e.node.get("obj")) in (SESS + "::wq", LST + "::wq"))]
+                                    field_of(e.node.get("obj")) in (SWQ, LWQ))]
     kinds = {field_of(e.node.get("obj")) for e in qs}
     r.instance()
-    r.expect(kinds == {SESS + "::wq", LST + "::wq"}, sd, None, "would-block not queued", "sendDo no longer queues the datagram on EAGAIN for both session kinds (found %d queueing sites)" % len(qs),
+    r.expect(kinds == {SWQ, LWQ}, sd, None, "would-block not queued", "sendDo no longer queues the datagram on EAGAIN for both session kinds (found %d queueing sites)" % len(qs),
              okdesc="sendDo queues on would-block (client and listener)")
     for e in qs:
         r.instance()
         ok = False
         args = [a for a in e.node["args"] if not a.get("def")]
-        if len(args) == 1:
-            c = fl.canon(args[0])
+        if len(args) <= 1:
+            c = fl.canon(args[0]) if args else fl.canon(e.node)     # emplace_back(): the element itself, filled through the returned reference
             if c == P:
                 ok = True
-            elif c[0] == "var":
+            elif c[0] == "var" or not args:
                 ws = [x.node for x in sd.stmts() if x.node.get("k") in ("opcall", "bin") and x.node.get("op") == "=" and
-                      fl.canon((x.node.get("args") or [x.node.get("lhs")])[0]) == (".", c, ODG + "::payload")]
+                      fl.canon((x.node.get("args") or [x.node.get("lhs")])[0]) == (".", c, OPAY)]
                 ok = bool(ws) and all(fl.canon((w.get("args") or [None, w.get("rhs")])[1]) == P for w in ws)
             elif c[0] in ("?", "call", "mcall"):
                 raise AnalysisBroken("sendDo: the queued value `%s` is built in a shape this rule does not know" % show(args[0])[:60])
         r.expect(ok, sd, e, "queued payload", "the datagram queued on would-block is not the whole payload of the command: `%s`" % show(e.node)[:90], okdesc="whole payload moved into the queue element")
     # flush: one whole element per send, popped exactly when sent or failed hard
-    for name, fld in (("flushListener", LST + "::wq"), ("writeClient", SESS + "::wq")):
+    for name, fld in (("flushListener", LWQ), ("writeClient", SWQ)):
         f = m.fn(name)
         ff = m.flow(f)
         ws = calls(f, SEND)
@@ -1005,7 +1028,7 @@ def r2(ctx, r):
         w = ws[0]
         c1, c2 = ff.canon(w.node["args"][1]), ff.canon(w.node["args"][2])
         X = c1[2] if c1[0] == "mcall" and c1[1] == "data" and not c1[3] else None
-        E = cbase(X) if cfield(X) == ODG + "::payload" else X
+        E = cbase(X) if cfield(X) == OPAY else X
         ok = X is not None and c2 == ("mcall", "size", X, ()) and isinstance(E, tuple) and E[0] == "mcall" and E[1] == "front" and cfield(E[2]) == fld
         r.expect(ok, f, w, "%s: not the front element" % name, "%s does not send exactly the front queue element's data()/size(): %s" % (name, [show(strip_wrappers(x)) for x in w.node["args"][1:3]]),
                  okdesc="%s: send(front.data(), front.size())" % name)
@@ -1059,17 +1082,17 @@ def r3(ctx, r):
                  "sendto is addressed to %s, not to the peer stored in the session looked up by the command's id" % [show(strip_wrappers(x)) for x in a[-2:]], okdesc="sendto(…, &s->peer, s->plen)")
     # queued copy of the destination: the datagram object put on the listener's queue has `to` copied from that session's peer and
     # `toLen` assigned from its plen (copied at queueing time — the session may be gone when the queue is flushed)
-    qs = [e for e in sd.stmts() if e.node.get("k") == "mcall" and last(e.node.get("callee", "")) in ("emplace_back", "push_back") and field_of(e.node.get("obj")) == LST + "::wq"]
+    qs = [e for e in sd.stmts() if e.node.get("k") == "mcall" and last(e.node.get("callee", "")) in ("emplace_back", "push_back") and field_of(e.node.get("obj")) == LWQ]
     r.instance()
     if not qs:
         r.fail(sd, None, "queued destination", "sendDo does not queue on the listener's out-queue")
     for e in qs:
         args = [a for a in e.node["args"] if not a.get("def")]
-        c = fl.canon(args[0]) if len(args) == 1 else ("?", None)
-        if c[0] != "var":
+        c = fl.canon(args[0]) if len(args) == 1 else (fl.canon(e.node) if not args else ("?", None))
+        if c[0] != "var" and args:
             raise AnalysisBroken("sendDo: the datagram queued for the listener (`%s`) is not a local object: shape not known to this rule" % show(e.node)[:60])
-        cps = [x for x in calls(sd, ("memcpy", "std::memcpy")) if fl.canon(x.node["args"][0]) == (".", c, ODG + "::to")]
-        asg = [x for x in sd.stmts() if x.node.get("k") == "bin" and x.node["op"] == "=" and fl.canon(x.node["lhs"]) == (".", c, ODG + "::toLen")]
+        cps = [x for x in calls(sd, ("memcpy", "std::memcpy")) if fl.canon(x.node["args"][0]) == (".", c, OTO)]
+        asg = [x for x in sd.stmts() if x.node.get("k") == "bin" and x.node["op"] == "=" and fl.canon(x.node["lhs"]) == (".", c, OTOLEN)]
         ok = bool(cps) and all(fl.canon(x.node["args"][1]) == (".", S, SESS + "::peer") for x in cps) and bool(asg) and all(fl.canon(x.node["rhs"]) == (".", S, SESS + "::plen") for x in asg)
         r.expect(ok, sd, cps[0] if cps else e, "queued destination", "the destination stored with a queued datagram is not a copy of the session's peer address/length", okdesc="OutDg.to/toLen copied from s->peer/s->plen")
     f2 = m.fn("flushListener")
@@ -1078,8 +1101,8 @@ def r3(ctx, r):
         r.instance()
         a = e.node["args"]
         c1 = ff.canon(a[1])
-        E = cbase(c1[2]) if c1[0] == "mcall" and cfield(c1[2]) == ODG + "::payload" else None
-        r.expect(E is not None and len(a) >= 6 and ff.canon(a[4]) == (".", E, ODG + "::to") and ff.canon(a[5]) == (".", E, ODG + "::toLen"), f2, e, "flush destination",
+        E = cbase(c1[2]) if c1[0] == "mcall" and cfield(c1[2]) == OPAY else None
+        r.expect(E is not None and len(a) >= 6 and ff.canon(a[4]) == (".", E, OTO) and ff.canon(a[5]) == (".", E, OTOLEN), f2, e, "flush destination",
                  "flushListener does not address the queued datagram to its stored destination: %s" % [show(strip_wrappers(x)) for x in a[-2:]], okdesc="flushListener: sendto(…, &d.to, d.toLen)")
     # connected sessions use their own descriptor
     for e in calls(sd, ("send",)):
@@ -1220,9 +1243,20 @@ def r6(ctx, r):
             return [("set", "idx", True)]
         return None
     pa = PredAbs(cn, vocab, leaf, eff, init=Not(A("idx")), track_bools=True)
+
+    def not_client_edge(b, si):
+        """False for an edge that can only be taken by a connected-client session: the `case ClientConnected:` edge of a switch over the
+        role, or a branch edge on which the abstraction knows `client`"""
+        lab = b.edge_label(si)
+        if isinstance(lab, tuple):
+            return not any(x.get("k") == "enum" and last(x["n"]) == "ClientConnected" for x in walk(lab[1]))
+        st = pa.flow.at_block_end(b)
+        s2 = pa._edge(st, b, si) if st is not None else None
+        return s2 is not None and not pa.v.entails(s2, A("client"))
     for e in common.member_calls_on(cn, SESSIONS, ("erase",)):
         r.instance()
-        r.expect(pa.entails(e, Or(A("client"), A("idx"))), cn, e, "index not cleaned", "a listener-side session is erased from _sessions on a path that never consulted the peer index: "
+        w = search(cn, ("entry",), lambda x, e=e: x is e, stop=lambda x: x in touched, edge_ok=not_client_edge, eh=False)
+        r.expect(w is None, cn, e, "index not cleaned", "a listener-side session is erased from _sessions on a path that never consulted the peer index: "
                  "a stale index entry makes the next datagram from that peer hit a missing session", okdesc="closeNow: ServerPeer sessions leave through the index clean-up")
     r.floor(3, "index coherence sites")
 
@@ -1327,6 +1361,11 @@ def r8(ctx, r):
 
 
 def run(ctx, ck):
+    try:
+        resolve_state(ctx.fb())
+    except AnalysisBroken as ex:
+        ck.broken.append("setup: %s" % ex)
+        return
     ck.run_rule("C06-R1", "one receive → exactly one data event with the whole payload; every receive into a whole ioReadChunk buffer", "A5 ghost counting + A2", lambda r: r1(ctx, r))
     ck.run_rule("C06-R2", "one command → at most one datagram, sent whole; queued whole; flushed whole", "A5 + shape", lambda r: r2(ctx, r))
     ck.run_rule("C06-R3", "destination comes from the addressed session", "A10 dataflow shape", lambda r: r3(ctx, r))
